@@ -705,7 +705,17 @@ def mutate(units, cfg, rng, major, level):
         if idx:
             j = rng.choice(idx)
             if k == "frag-xy":
-                us[j] = us[j].with_xy(rng.choice([0, 1, 2, us[j].f[3] + 1]), rng.choice([0, 1, us[j].f[4]]))
+                x0, y0 = us[j].f[3], us[j].f[4]
+                if rng.random() < 0.4:
+                    # coordinates that are wrong but alias the right ones under a plausible wrong formula
+                    # (same raster index y*slices_x+x, swapped axes, offset by a whole row/column)
+                    alts = [(x0 + cfg.sx, y0 - 1), (x0 + cfg.sx * y0, 0), (x0 - cfg.sx, y0 + 1), (y0, x0), (x0, y0 + cfg.sy),
+                            (x0 + cfg.sx, y0)]
+                    alts = [(a, b) for (a, b) in alts if 0 <= a < 65536 and 0 <= b < 65536 and (a, b) != (x0, y0)]
+                    if alts:
+                        us[j] = us[j].with_xy(*rng.choice(alts))
+                else:
+                    us[j] = us[j].with_xy(rng.choice([0, 1, 2, x0 + 1]), rng.choice([0, 1, y0]))
             elif k == "frag-count":
                 us[j] = us[j].with_count(rng.choice([100, 7, 65535]))
             else:
